@@ -25,6 +25,11 @@ type resCase struct {
 		Methods []string `json:"methods"`
 		Path    []string `json:"path"`
 	} `json:"table"`
+	StrictTable []struct {
+		Action  string   `json:"action"`
+		Methods []string `json:"methods"`
+		Path    []string `json:"path"`
+	} `json:"stricttable"`
 	Probes [][3]string `json:"probes"`
 }
 
@@ -56,6 +61,43 @@ func resReplay(s *Summary, raw json.RawMessage) {
 		for rep := 0; rep < 6; rep++ {
 			resRun(s, &c, ctl, base, rep%3, rep >= 3)
 		}
+		resStrict(s, &c, ctl, base)
+	}
+}
+
+// resStrict: on a StrictLastSlash router the registered table keeps the trailing slashes of the resource's relative paths
+func resStrict(s *Summary, c *resCase, ctl resCtl, base string) {
+	name := strings.ToLower(ctl.name)
+	r := rux.New(rux.StrictLastSlash)
+	var pan any
+	func() {
+		defer func() { pan = recover() }()
+		r.Resource(base, ctl.mk())
+	}()
+	s.Compared++
+	want, got := []string{}, []string{}
+	for _, row := range c.StrictTable {
+		ms := append([]string{}, row.Methods...)
+		sort.Strings(ms)
+		want = append(want, fmt.Sprintf("%s %s", strings.Join(ms, ","), strings.Replace(strings.Join(row.Path, ""), "res", name, 1)))
+	}
+	for _, ri := range r.Routes() {
+		ms := append([]string{}, ri.Methods...)
+		sort.Strings(ms)
+		e := fmt.Sprintf("%s %s", strings.Join(ms, ","), ri.Path)
+		dup := false
+		for _, g := range got { // (Routes() lists a route once per method)
+			dup = dup || g == e
+		}
+		if !dup {
+			got = append(got, e)
+		}
+	}
+	sort.Strings(want)
+	sort.Strings(got)
+	if pan != nil || strings.Join(got, "|") != strings.Join(want, "|") {
+		s.mismatch(map[string]any{"kind": "resource", "aspect": "table", "controller": ctl.name, "base": base, "what": fmt.Sprintf(
+			"Resource(%q, %s implementing %v) on a StrictLastSlash router: registered %v (panic %v), table with the trailing slashes kept %v", base, ctl.name, c.Impl, got, pan, want)}, c)
 	}
 }
 
